@@ -1439,7 +1439,6 @@ Proof.
   unfold become_leader. intros H HI.
   destruct (role_eqb (r_state r) Follower); [discriminate|].
   inv_bind H. assert (Hx0 : RInv x) by rinv.
-  match type of H with (if ?c then _ else _) = _ => destruct c end; [discriminate|].
   match type of H with (match ?g with _ => _ end) = _ => destruct g as [pr|] eqn:Eg end; [|discriminate].
   inv_bind H. destruct x0 as [r6 ok]. destruct ok; [|discriminate]. inversion H; subst.
   eapply append_entry_RInv; [exact Hx1|].
@@ -2735,7 +2734,6 @@ Proof.
   unfold become_leader. intros H HI.
   destruct (role_eqb (r_state r) Follower); [discriminate|].
   inv_bind H. assert (Hx0 : CInv c x) by cinv.
-  match type of H with (if ?c then _ else _) = _ => destruct c end; [discriminate|].
   match type of H with (match ?g with _ => _ end) = _ => destruct g as [pr|] eqn:Eg end; [|discriminate].
   inv_bind H. destruct x0 as [r6 ok]. destruct ok; [|discriminate]. inversion H; subst.
   eapply append_entry_CInv; [exact Hx1|]. cinv.
